@@ -569,6 +569,7 @@ char * clean_string(const char * str, bool lowercase, bool url_clean) {
 				}
 
 				d_string_append_c(out, '&');
+				block_whitespace = false;
 				break;
 
 			default:
